@@ -151,7 +151,7 @@ fn normalize_basic_value_for_boundaries(
                 let from0to1 = #arbitrary_in_01_range;
 
                 // Scale range [0; 1] to the range of the boundaries
-                let range = (#upper_value - #lower_value).abs();
+                let range = ((#upper_value) - (#lower_value)).abs();
                 let x = #lower_value + from0to1 * range;
                 // Rounding in the operations above can push `x` slightly beyond a boundary
                 // (e.g. -300.3 + 1.0 * 300.0 > -0.3 for f32), and an overflowing `range`
